@@ -32,6 +32,14 @@ def generate(tier, seed):
         sp, finite, sims, cap = c05.template(rnd, name)
         if "ssa" not in sims:
             continue
+        if i % 2 == 0:
+            # some reactions carry part of their products in a delayed part: a volume simulator without delay support applies
+            # both parts at the firing time and the delay-capable one delivers a zero delay at once: the law is that of the net stoichiometry,
+            # also on the 10^5-th run of one model
+            for r_i, r in enumerate(sp["reactions"]):
+                if r_i % 2 == 0 and r["products"]:
+                    r["delay"] = {"type": "fixed", "reactants": [], "products": [r["products"][-1]], "params": {"delay": 0.0}}
+                    r["products"] = r["products"][:-1]
         V = float("%.3g" % rnd.choice([rnd.uniform(0.2, 0.7), rnd.uniform(1.5, 5.0)]))
         x0 = {s: float(v) for s, v in sp["x0"].items()}
         lam = sum(ref.rates(sp, x0, sp["params"], V, "stochvol", 0.0))
